@@ -110,10 +110,12 @@ def check_conversion(acc, kind, u, v, x):
     q2 = K(x, u)
     r2 = q2.to(v, inplace=True)
     acc.transitions += 1
-    if r2 is not q2 or q2.unit != v or q2.value != r.value:
+    # the call returns the converted quantity: the object itself or an equal one (the documentation does not say which)
+    returned_ok = r2 is q2 or (type(r2) is K and r2.unit == q2.unit and r2.value == q2.value)
+    if not returned_ok or q2.unit != v or si.ulps_apart(float(q2.value), float(r.value)) > 2:
         acc.violation(f'C05/conv/inplace-differs/{site}', 'inplace == copy', case,
                       {'copy': [r.value, r.unit], 'inplace': [q2.value, q2.unit],
-                       'same_object': r2 is q2})
+                       'returned': str(r2)})
     # the converted object must behave as its public value/unit say (sub-kinds keep a second copy)
     try:
         dbl = q2 + q2
